@@ -20,6 +20,16 @@ INFO = {
              "the specification (Trace_Sanitize).",
         note="Trusts the transcription of Go's UTF-8 range decoding (Utf8.tla) and TLC; bounded alphabet/length + random longer keys; empty key left open.",
         ref="6/C20"),
+    "C03": dict(
+        text="TLC checks the frame decoder (ReadFull header / CopyN body / type test / payload parse) as a state machine against "
+             "the declarative Decode(frames, fault) for every fragmentation of reads, every cut / transport-error offset and every "
+             "position of a daemon-error or corrupt frame within the bounds (<=2 frames quick, <=3 thorough); every explored "
+             "(frames, fault) pair is replayed through dockerlog.ParseLog and through Engine.Eval (log query and range aggregation) "
+             "with 5 read-size patterns, plus seeded random streams, and each recorded execution is validated by TLC "
+             "(Trace_Decoder): records byte- and nanosecond-exact, in order, prefix up to the fault, error iff the fault is an "
+             "error kind, and the error stays reported when the iterator is polled again.",
+        note="Trusts time.Format for RFC3339Nano text, the fake daemon's transport, TLC; bounded frames + random larger streams.",
+        ref="6/C03"),
 }
 
 NOT_YET = "no check registered yet in this revision (machinery under construction; see DESIGN.md section 6 for the planned model)"
